@@ -3,7 +3,7 @@ import common, lib, treeutil as T
 from comp import Comp
 
 
-def check_tree(C, drv, root, tag, exhaustive_idx=True):
+def check_tree(C, drv, root, tag, exhaustive_idx=True, recipe=None):
     L = lib.load()
     nodes, dup = T.walk(root)
     idx = {id(n): i for i, n in enumerate(nodes)}
@@ -27,6 +27,8 @@ def check_tree(C, drv, root, tag, exhaustive_idx=True):
     model_pre = common.dec_ints(outs[0])
     model_post = common.dec_ints(outs[1])
     rp = dict(how='tree', tree=enc)
+    if recipe is not None:
+        rp['recipe'] = recipe   # the operations on the real code that produced this tree (replayed as a whole)
     if model_pre != real_pre:
         C.issue('pre-order-mismatch', 'correspondence', rp, model=model_pre, real=real_pre)
     if model_post != real_post:
@@ -54,6 +56,93 @@ def check_tree(C, drv, root, tag, exhaustive_idx=True):
                                                                   find=dict(zip(ps, real_find))))
 
 
+def _tup(x):
+    return tuple(_tup(y) for y in x) if isinstance(x, (list, tuple)) else x
+
+
+def run_recipe(C, drv, rc):
+    """a short history of operations on real Node objects, every intermediate tree checked; deterministic
+    given the recipe, so a replay file reproduces it"""
+    import copy as _copy
+    L = lib.load()
+    np = L['np']
+    rc = dict(rc)
+    if rc['kind'] == 'history':
+        root = T.build(_tup(rc['shape']))
+        check_tree(C, drv, root, 'history-before', recipe=rc)
+        nodes, _ = T.walk(root)
+        deep = [n for n in nodes if n.parent is not None and n.parent.parent is not None]
+        if not deep:
+            return
+        d_ = deep[rc['pick'] % len(deep)]
+        branch = T.build(_tup(rc['branch']))
+        par = d_.parent
+        if d_.flag:
+            par.left = branch
+            branch.flag = True
+        else:
+            par.right = branch
+            branch.flag = False
+        branch.parent = par
+        check_tree(C, drv, root, 'history-after-edit', recipe=rc)
+        check_tree(C, drv, _copy.deepcopy(root), 'history-deepcopy', recipe=rc)
+    elif rc['kind'] == 'link-order':
+        side = rc['side']
+        p_ = L['Node'](name='SUM', type='FUNCTION')
+        other = L['Node'](name=0, type='TERMINAL', value=np.array([[0.5]]))
+        ch = L['Node'](name='ABS', type='FUNCTION')
+        inner = L['Node'](name='SUM', type='FUNCTION')
+        leaf = L['Node'](name=0, type='TERMINAL', value=np.array([[0.5]]))
+        leaf2 = L['Node'](name=0, type='TERMINAL', value=np.array([[0.5]]))
+        ch.left = inner
+        inner.parent = ch
+        inner.left = leaf
+        leaf.parent = inner
+        inner.right = leaf2
+        leaf2.flag = False
+        leaf2.parent = inner
+        if side:
+            p_.right = other; other.flag = False
+        else:
+            p_.left = other
+        other.parent = p_
+        for step in rc['order']:
+            if step == 'flag':
+                ch.flag = side
+            elif step == 'parent':
+                ch.parent = p_
+            elif side:
+                p_.left = ch
+            else:
+                p_.right = ch
+        check_tree(C, drv, p_, 'link-order', recipe=rc)
+    elif rc['kind'] == 'gp':
+        import gpops, random as _random
+        gp = L['kinds']['GP']()
+        fa, mo = T.build(_tup(rc['fa'])), T.build(_tup(rc['mo']), ops=None)
+        _ = (fa.pre_order, fa.post_order, fa.n_nodes, mo.pre_order, mo.n_nodes)
+        pk = rc['picks']
+        sc = gpops.Script(_random.Random(0), forced=[1 + pk[0] % fa.n_nodes, 1 + pk[1] % mo.n_nodes]).install()
+        try:
+            o1, o2 = gp._cross(fa, mo, fa.n_nodes, mo.n_nodes)
+        except AttributeError:
+            return
+        finally:
+            sc.remove()
+        for o in (o1, o2):
+            check_tree(C, drv, o, 'offspring', recipe=rc)
+        # second generation: the offspring are crossed again
+        sc = gpops.Script(_random.Random(0), forced=[1 + pk[2] % o1.n_nodes, 1 + pk[3] % o2.n_nodes]).install()
+        try:
+            p1, p2 = gp._cross(o1, o2, o1.n_nodes, o2.n_nodes)
+        except AttributeError:
+            return
+        finally:
+            sc.remove()
+        for o in (p1, p2, o1, o2):
+            check_tree(C, drv, o, 'second-generation', recipe=rc)
+
+
 def check(ctx):
     L = lib.load()
     np = L['np']
@@ -77,83 +166,19 @@ def check(ctx):
                                 lower_bound=[0], upper_bound=[1])
             check_tree(C, drv, sp.trees[0], 'grown')
         # history: the same tree object is measured, edited in place below the root, and measured again
-        import copy as _copy, itertools as _it
+        import itertools as _it
         shapes2 = [s_ for s_ in T.shapes_upto(3) if T.shape_size(s_) >= 4]
         for k in range(60 if ctx['tier'] == 'quick' else 600):
-            root = T.build(C.rng.choice(shapes2))
-            check_tree(C, drv, root, 'history-before')
-            nodes, _ = T.walk(root)
-            deep = [n for n in nodes if n.parent is not None and n.parent.parent is not None]
-            if not deep:
-                continue
-            d_ = C.rng.choice(deep)
-            branch = T.build(C.rng.choice(T.shapes_upto(2)))
-            par = d_.parent
-            if d_.flag:
-                par.left = branch
-                branch.flag = True
-            else:
-                par.right = branch
-                branch.flag = False
-            branch.parent = par
-            check_tree(C, drv, root, 'history-after-edit')
-            check_tree(C, drv, _copy.deepcopy(root), 'history-deepcopy')
+            s_ = C.rng.choice(shapes2)
+            run_recipe(C, drv, dict(kind='history', shape=s_, pick=C.rng.randrange(1 << 20), branch=C.rng.choice(T.shapes_upto(2))))
         # every order of the three linking steps of a right (and left) child
         for side in (False, True):
             for order in _it.permutations(['flag', 'parent', 'attach']):
-                p_ = L['Node'](name='SUM', type='FUNCTION')
-                other = L['Node'](name=0, type='TERMINAL', value=np.array([[0.5]]))
-                ch = L['Node'](name='ABS', type='FUNCTION')
-                inner = L['Node'](name='SUM', type='FUNCTION')
-                leaf = L['Node'](name=0, type='TERMINAL', value=np.array([[0.5]]))
-                leaf2 = L['Node'](name=0, type='TERMINAL', value=np.array([[0.5]]))
-                ch.left = inner
-                inner.parent = ch
-                inner.left = leaf
-                leaf.parent = inner
-                inner.right = leaf2
-                leaf2.flag = False
-                leaf2.parent = inner
-                if side:
-                    p_.right = other; other.flag = False
-                else:
-                    p_.left = other
-                other.parent = p_
-                for step in order:
-                    if step == 'flag':
-                        ch.flag = side
-                    elif step == 'parent':
-                        ch.parent = p_
-                    elif side:
-                        p_.left = ch
-                    else:
-                        p_.right = ch
-                check_tree(C, drv, p_, 'link-order')
+                run_recipe(C, drv, dict(kind='link-order', side=side, order=list(order)))
         # trees produced by the GP operators from parents that had been traversed before
-        gp = L['kinds']['GP']()
-        import gpops
         for k in range(40 if ctx['tier'] == 'quick' else 400):
-            fa, mo = T.build(C.rng.choice(shapes2)), T.build(C.rng.choice(shapes2), ops=None)
-            _ = (fa.pre_order, fa.post_order, fa.n_nodes, mo.pre_order, mo.n_nodes)
-            sc = gpops.Script(C.rng, forced=[C.rng.randint(1, fa.n_nodes), C.rng.randint(1, mo.n_nodes)]).install()
-            try:
-                o1, o2 = gp._cross(fa, mo, fa.n_nodes, mo.n_nodes)
-            except AttributeError:
-                continue
-            finally:
-                sc.remove()
-            for o in (o1, o2):
-                check_tree(C, drv, o, 'offspring')
-            # second generation: the offspring are crossed again
-            sc = gpops.Script(C.rng, forced=[C.rng.randint(1, o1.n_nodes), C.rng.randint(1, o2.n_nodes)]).install()
-            try:
-                p1, p2 = gp._cross(o1, o2, o1.n_nodes, o2.n_nodes)
-            except AttributeError:
-                continue
-            finally:
-                sc.remove()
-            for o in (p1, p2, o1, o2):
-                check_tree(C, drv, o, 'second-generation')
+            run_recipe(C, drv, dict(kind='gp', fa=C.rng.choice(shapes2), mo=C.rng.choice(shapes2),
+                                    picks=[C.rng.randrange(1 << 20) for _ in range(4)]))
         if ctx['tier'] == 'thorough':
             d3 = T.shapes_upto(3)
             for k in range(300):
@@ -179,9 +204,12 @@ def replay(prop, payload):
     drv = common.Driver()
     try:
         C = Comp(dict(seed=0, tier='quick'), '')
-        root = decode(payload['tree'])
-        check_tree(C, drv, root, 'replay')
-        return bool(C.issues)
+        if payload.get('recipe'):
+            run_recipe(C, drv, payload['recipe'])
+        else:
+            root = decode(payload['tree'])
+            check_tree(C, drv, root, 'replay')
+        return any(i['layer'] == 'oracle' for i in C.issues)
     finally:
         drv.close()
 
